@@ -563,7 +563,17 @@ def find_anchor(body, anchor, start=0):
     rest = '\\s*'.join(re.escape(t) for t in m.group(3).split()) if m.group(3).strip() else ''
     pat = r'let\s+(?:mut\s+)?' + name + r'\b\s*(?::\s*[^=;]+?)?' + (r'\s*=\s*' + rest if m.group(2) else '')
     mm = re.compile(pat).search(body, start)
-    return mm.start() if mm else -1
+    if mm: return mm.start()
+    # the bound name changed: fall back to the statement that contains the same right-hand side text
+    rest = m.group(3).strip()
+    if m.group(2) and len(rest) >= 8:
+        rm = re.compile('\\s*'.join(re.escape(t) for t in rest.split())).search(body, start)
+        if rm and not re.compile('\\s*'.join(re.escape(t) for t in rest.split())).search(body, rm.end()):     # unambiguous
+            j = rm.start()
+            while j > 0 and body[j - 1] not in ';{}': j -= 1
+            while j < rm.start() and body[j].isspace(): j += 1
+            return j
+    return -1
 
 _KW_BLOCK = ('if', 'for', 'while', 'loop', 'match', 'unsafe')
 
